@@ -86,4 +86,8 @@ CLAIMED["C10"] = {"text": "Field tables for six document kinds (Debian field nam
                   "design_ref": "3/C10", "note": _TB + " The mapping from Go struct field to flat key is harness knowledge (checked for key-set agreement with the table).",
                   "technique": "TLA+ field tables and document renderer; TLC-enumerated document models parsed by the real typed parsers and validated by TLC"}
 
+CLAIMED["C18"] = {"text": "ParserCalls.tla has goroutines doing Begin/End with no shared variable, so its only behaviours end every call with the baseline outcome of (call, input); TLC explores all interleavings of the small model, and validates the real event trace of 16 goroutines x N calls (ordered by a global atomic ticket, per-goroutine sequence numbers) by stepping it through that machine - a disabled End (outcome differs from the call made alone) or ill-nested events reject the trace, and a run without overlapping calls is rejected as vacuous. The concurrent driver is built with the Go race detector; sequentially every entry point is called twice under a watchdog on seeded inputs up to 64 KiB (totality, value xor error, determinism).",
+                  "design_ref": "3/C18", "note": _TB + " Data-race freedom itself is decided by the Go race detector, not by TLC.",
+                  "technique": "TLA+ spec without shared state; stateful TLC trace validation of concurrent call events; race-detector build; watchdog-guarded repeat calls"}
+
 NOT_APPLICABLE = {}
